@@ -1,7 +1,8 @@
 (* Prop_C25.v — the property theorems of C25 and nothing else. *)
 From Coq Require Import List NArith ZArith Bool Permutation.
 Import ListNotations.
-From Verif Require Import Base.Val C25.Path_C25 C25.Model_C25 C25.Spec_C25 C25.Proofs_C25.
+From Verif Require Import Base.Val C25.Path_C25 C25.Model_C25 C25.Spec_C25 C25.SpecExt_C25 C25.SpecSym_C25 C25.Proofs_C25
+                          C25.RoundtripExt_C25 C25.SymDir_C25.
 
 (* an archive without members reads as the empty set *)
 Theorem empty_archive : of_members [] = Ok [].
@@ -24,6 +25,25 @@ Theorem tar_roundtrip : forall c, wf c -> flat c -> parents_closed c ->
   exists r, of_members (to_members c) = Ok r /\ roundtrip_ok c r.
 Proof. exact tar_roundtrip_proof. Qed.
 Print Assumptions tar_roundtrip.
+
+(* THE ROUND TRIP WITHOUT [parents_closed] ("parents present or added"): for every well-formed set with
+   no entry beneath a symlink, whatever directories are missing from it, what is read back is the written
+   set (entries unchanged, hardlink classes preserved) plus exactly the missing ancestor directories:
+   each extra entry is a fresh 0o775 root:root directory at an absent proper ancestor (not "/") of a
+   written entry, every such ancestor is there, and no path occurs twice. *)
+Theorem tar_roundtrip_dirs : forall c, wf c -> flat c ->
+  exists r, of_members (to_members c) = Ok r /\ roundtrip_dirs_ok c r.
+Proof. exact tar_roundtrip_dirs_proof. Qed.
+Print Assumptions tar_roundtrip_dirs.
+
+(* THE ROUND TRIP BEYOND [flat]: a set with entries recorded beneath ONE symlinked directory x (any
+   number of them, none itself a symlink; x resolves to a plain path; no collisions) reads back as its
+   live-merge resolution [resolve_syms x c] -- every entry beneath x moved to x's resolved target, all
+   else unchanged, hardlink classes preserved -- plus exactly the missing ancestor directories. *)
+Theorem tar_roundtrip_symdir : forall c x, wf c -> one_symdir c x ->
+  exists r, of_members (to_members c) = Ok r /\ roundtrip_dirs_ok (resolve_syms x c) r.
+Proof. exact tar_roundtrip_symdir_proof. Qed.
+Print Assumptions tar_roundtrip_symdir.
 
 (* read side alone, for the entries of ANY archive: a flat, parent-closed set of distinct plain
    locations is only reordered by convert_archive (nothing rewritten, nothing added) *)
